@@ -8,7 +8,7 @@ SCOPE = [("arith", 40, 60), ("manager.ha", 400, 50), ("manager.state", 150, 50),
 ORACLE_RULE = ("C11: random stream x optional timeframe/fill x append schedule (many starting from 0 or 1 candles) with the Heikin-Ashi type on the "
                "real CandleManager vs an independent left fold of the four formulas over the independently resampled raw stream (with a lifespan: its tail); tag and clean_values checked; and every manager of a Heikin-Ashi Hexital whose members name "
                "several timeframes (possibly the Hexital's own) against the same fold")
-ASSUMPTIONS = ["TZ=UTC for this check", "HA values compared with relative tolerance 1e-9 in the oracle (bit-exact in the correspondence)"]
+ASSUMPTIONS = ["TZ=UTC for this check"]
 PARTIAL = 'proved for every schedule: without a timeframe, with a collapsing timeframe (with_timeframe) and with timeframe + gap filling, also for input candles that already carry readings (with_timeframe_fill_full); MEMBER MANAGERS OF A HEXITAL under any program of facade operations: haSpec of the raw stream, collapsed to the effective member timeframe and filled (member_schedule, member_schedule_tf, member_schedule_tf_fill, member_manager_is_bare). Open: the default manager of a Hexital none of whose members lives on it; Heikin-Ashi + lifespan'
 _case = om.make_case(ID, tf="maybe", ha=True)
 _case_fill = om.make_case(ID, tf=True, fill=True, ha=True)
